@@ -9,7 +9,10 @@ import (
 	"encoding/json"
 	"fmt"
 	"io"
+	"runtime"
 	"sort"
+	"sync"
+	"sync/atomic"
 	"time"
 
 	araft "github.com/basekick-labs/arc/internal/cluster/raft"
@@ -59,6 +62,20 @@ func (c Cmd) Log(idx uint64) *hraft.Log {
 	return &hraft.Log{Index: idx, Term: 1, Type: hraft.LogCommand, Data: data}
 }
 
+// Prepare pre-encodes the log data of every command with a static payload (the encoded command does
+// not depend on the log index), so replays do not re-marshal it. Returns cs for chaining.
+func Prepare(cs []Cmd) []Cmd {
+	for i := range cs {
+		if cs[i].Dyn == nil && cs[i].Raw == nil {
+			cs[i].Raw = cs[i].Log(0).Data
+		}
+		if len(cs[i].Sub) > 0 {
+			Prepare(cs[i].Sub)
+		}
+	}
+	return cs
+}
+
 func NewFSM() *araft.ClusterFSM { return araft.NewClusterFSM(zerolog.Nop()) }
 
 // Replay builds a fresh FSM and applies seed then hist; log index starts at 1.
@@ -100,6 +117,104 @@ func SnapshotBytes(f *araft.ClusterFSM) ([]byte, error) {
 		return nil, fmt.Errorf("sink cancelled")
 	}
 	return s.Bytes(), nil
+}
+
+// Snapshot is the handle type returned by ClusterFSM.Snapshot().
+type Snapshot = hraft.FSMSnapshot
+
+// Handle takes the snapshot HANDLE only (what hashicorp/raft does under the FSM lock); Persist is
+// called later by the snapshot goroutine while Apply keeps running.
+func Handle(f *araft.ClusterFSM) (hraft.FSMSnapshot, error) { return f.Snapshot() }
+
+// PersistHandle runs the real Persist of a previously taken handle into a buffer.
+func PersistHandle(sn hraft.FSMSnapshot) ([]byte, error) {
+	s := &sink{}
+	if err := sn.Persist(s); err != nil {
+		return nil, err
+	}
+	sn.Release()
+	if s.cancelled {
+		return nil, fmt.Errorf("sink cancelled")
+	}
+	return s.Bytes(), nil
+}
+
+// RestoreOnto runs the real Restore on an FSM that already holds state (InstallSnapshot on a follower).
+func RestoreOnto(f *araft.ClusterFSM, b []byte) error {
+	return f.Restore(io.NopCloser(bytes.NewReader(b)))
+}
+
+// Build applies cmds (log index = position, from 1) to a fresh FSM.
+func Build(cmds []Cmd) *araft.ClusterFSM {
+	f := NewFSM()
+	for i, c := range cmds {
+		c.Apply(f, uint64(i+1))
+	}
+	return f
+}
+
+// Raw is the un-normalised private-state dump (deterministic: sorted keys, sorted index slices).
+// Raw equality implies Canon equality; the converse does not hold (empty index containers).
+func Raw(f *araft.ClusterFSM) string { return string(f.VerifDump()) }
+
+// Listing is the manifest as the paginated read API serves it (goes through the sorted-key cache,
+// which is private state outside the dump); calling it also warms that cache.
+func Listing(f *araft.ClusterFSM) []string {
+	var out []string
+	cursor := ""
+	for i := 0; i < 1000; i++ {
+		es, next, err := f.GetFilesPaginated(cursor, 1)
+		if err != nil {
+			return append(out, "error:"+err.Error())
+		}
+		for _, e := range es {
+			out = append(out, e.Path)
+		}
+		if next == "" {
+			break
+		}
+		cursor = next
+	}
+	return out
+}
+
+// ParallelFor runs fn(i) for i in [0,n) on all CPUs; returns false if stop() fired before the end.
+func ParallelFor(n int, stop func() bool, fn func(i int)) bool {
+	var idx int64 = -1
+	var stopped int32
+	var wg sync.WaitGroup
+	for w := 0; w < runtime.NumCPU(); w++ {
+		wg.Add(1)
+		go func() {
+			defer wg.Done()
+			for {
+				i := int(atomic.AddInt64(&idx, 1))
+				if i >= n {
+					return
+				}
+				if stop != nil && stop() {
+					atomic.StoreInt32(&stopped, 1)
+					return
+				}
+				fn(i)
+			}
+		}()
+	}
+	wg.Wait()
+	return stopped == 0
+}
+
+// LessHist orders index lists by length, then lexicographically (deterministic representative choice).
+func LessHist(a, b []int) bool {
+	if len(a) != len(b) {
+		return len(a) < len(b)
+	}
+	for i := range a {
+		if a[i] != b[i] {
+			return a[i] < b[i]
+		}
+	}
+	return false
 }
 
 func RestoreFrom(b []byte) (*araft.ClusterFSM, error) {
